@@ -69,9 +69,12 @@ type Exec struct {
 	specVars     map[string]Value // param name -> entry value
 	inputs       map[string]*Term
 	globals      map[types.Object]*Obj
-	brLabel      string          // label of the break/continue being propagated ("" = innermost)
-	pendingLabel string          // label of the statement about to be executed
-	globalsRead  map[string]bool // package-level variables materialised during this run (qualified names)
+	written      map[*Obj]map[int]string // cells of pre-existing objects stored to on this path (-> where first)
+	lastWhere    string
+	evalOverride map[ast.Expr]Value // argument values fixed at a defer statement (deferred builtins)
+	brLabel      string             // label of the break/continue being propagated ("" = innermost)
+	pendingLabel string             // label of the statement about to be executed
+	globalsRead  map[string]bool    // package-level variables materialised during this run (qualified names)
 	errCodes     map[string]int64
 	lazyForall   []lazyForall
 	forceInline  bool
